@@ -16,12 +16,12 @@ ROLES = {
     "func": ("none", "read", "assign", "assign_noread", "assign_nl", "aug", "walrus", "for", "global_assign",
              "global_read", "global_aug", "nonlocal_assign", "nonlocal_read", "nonlocal_aug", "def", "classbind",
              "import", "fromimport", "param", "param_nl", "param_default", "kwonly", "vararg", "destructure",
-             "walrus_nonlocal", "for_nonlocal"),
+             "walrus_nonlocal", "for_nonlocal", "param_same", "kwonly_same"),
     "class": ("none", "read", "assign", "assign_noread", "aug", "for", "global_assign", "global_read",
               "nonlocal_assign", "nonlocal_read", "def", "classbind", "import", "assign_read_before",
               "destructure"),
     "lambda": ("none", "read", "param", "param_default_same", "walrus", "lam_vararg", "lam_kwarg", "lam_kwonly",
-               "lam_posonly"),
+               "lam_posonly", "lam_kwonly_same", "walrus_in_comp"),
     "comp": ("none", "read", "target", "target_tuple", "walrus", "iter_read", "cond_read"),
 }
 
@@ -133,7 +133,7 @@ def render_stmt_scope(node, ind, r):
     elif role == "fromimport":
         a("from math import pi as %s" % x)
         a("L(%d, 'fi', int(%s))" % (i, x))
-    elif role in ("param", "param_nl", "param_default", "kwonly"):
+    elif role in ("param", "param_nl", "param_default", "kwonly", "param_same", "kwonly_same"):
         a("L(%d, 'p', %s)" % (i, x))
         if role == "param_nl":
             a("def cap%d():" % i)
@@ -147,7 +147,7 @@ def render_stmt_scope(node, ind, r):
         L += render_child(ch, ind, r)
     if role in ("assign", "assign_nl", "aug", "walrus", "global_assign", "nonlocal_assign", "param", "param_nl",
                 "assign_read_before", "read", "global_read", "nonlocal_read", "global_aug", "nonlocal_aug",
-                "for", "destructure", "walrus_nonlocal", "param_default", "kwonly"):
+                "for", "destructure", "walrus_nonlocal", "param_default", "kwonly", "param_same", "kwonly_same"):
         a("L(%d, 'end', %s)" % (i, x))
     if not L:
         a("pass")
@@ -159,8 +159,12 @@ def render_expr_scope(node, r):
     x = r.name
     parts = []
     if role in ("read", "param", "target", "param_default_same", "target_tuple", "lam_vararg", "lam_kwarg",
-                "lam_kwonly", "lam_posonly"):
+                "lam_kwonly", "lam_posonly", "lam_kwonly_same"):
         parts.append("L(%d, 'r', %s)" % (i, x))
+    if role == "walrus_in_comp":
+        # a walrus inside a comprehension inside the lambda binds a variable of the LAMBDA
+        parts.append("[L(%d, 'wc', (%s := %d)) for wt%d in [0]]" % (i, x, r.val(), i))
+        parts.append("L(%d, 'wc2', %s)" % (i, x))
     if role == "walrus":
         parts.append("L(%d, 'w', (%s := %d))" % (i, x, r.val()))
         parts.append("L(%d, 'w2', %s)" % (i, x))
@@ -180,6 +184,8 @@ def expr_child(ch, r):
             return "(lambda %s: %s)(%d)" % (x, body, r.val())
         if role == "param_default_same":
             return "(lambda %s=%s: %s)()" % (x, x, body)
+        if role == "lam_kwonly_same":
+            return "(lambda *, %s=%s: %s)()" % (x, x, body)
         if role == "lam_vararg":
             return "(lambda *%s: %s)(%d)" % (x, body, r.val())
         if role == "lam_kwarg":
@@ -205,7 +211,7 @@ def render_child(ch, ind, r):
     L = []
     if kind == "func":
         params = {"param": x, "param_nl": x, "param_default": "%s=%d" % (x, r.val()), "kwonly": "*, %s=%d" % (x, r.val()),
-                  "vararg": "*%s" % x}.get(role, "")
+                  "vararg": "*%s" % x, "param_same": "%s=%s" % (x, x), "kwonly_same": "*, %s=%s" % (x, x)}.get(role, "")
         L.append("%sdef f%d(%s):" % (p, i, params))
         L += render_stmt_scope(ch, ind + 1, r)
         if role in ("param", "param_nl"):
@@ -283,6 +289,52 @@ def trees_chain3(root_roles=("none", "assign")):
                     if not legal_child(k2, k3):
                         continue
                     yield ("module", rr, ((k1, r1, ((k2, r2, ((k3, r3, ()),)),)),))
+
+
+FOCUS = {
+    "func": ("assign", "assign_nl", "param_nl", "global_read", "nonlocal_assign", "none"),
+    "class": ("none", "assign", "assign_noread", "global_read", "assign_read_before"),
+    "lambda": ("none", "read", "param_default_same", "walrus"),
+    "comp": ("none", "read", "target", "iter_read"),
+}
+
+
+def trees_chain4_focus(root_roles=("none", "assign")):
+    """chains of four inner scopes over a small role set per kind (deep nesting of classes in
+    classes in functions etc. is where 'skip exactly one level' mistakes live)"""
+    nodes = [(k, r) for k in KINDS for r in FOCUS[k]]
+    for rr in root_roles:
+        for (k1, r1) in nodes:
+            if k1 not in ("func",):
+                continue
+            for (k2, r2) in nodes:
+                if not legal_child(k1, k2) or k2 == "comp":
+                    continue
+                for (k3, r3) in nodes:
+                    if not legal_child(k2, k3):
+                        continue
+                    for (k4, r4) in nodes:
+                        if not legal_child(k3, k4) or k4 in ("func", "class") or r4 == "none":
+                            continue
+                        yield ("module", rr, ((k1, r1, ((k2, r2, ((k3, r3, ((k4, r4, ()),)),)),)),))
+
+
+def trees_class_towers(root_roles=("none", "assign")):
+    """a function whose variable lives in the nonlocal dictionary, a tower of two or three nested
+    classes below it (each binding the name or not), and a lambda/comprehension/method at the bottom"""
+    import itertools
+    cls_roles = ("none", "assign_noread", "assign")
+    bottoms = [("lambda", "read"), ("comp", "read"), ("lambda", "param_default_same"), ("comp", "iter_read"),
+               ("func", "read"), ("func", "nonlocal_read"), ("func", "global_read")]
+    for rr in root_roles:
+        for fr in ("assign_nl", "param_nl", "assign"):
+            for height in (2, 3):
+                for roles in itertools.product(cls_roles, repeat=height):
+                    for bottom in bottoms:
+                        node = (bottom[0], bottom[1], ())
+                        for cr in reversed(roles):
+                            node = ("class", cr, (node,))
+                        yield ("module", rr, (("func", fr, (node,)),))
 
 
 def walk(tree, path=()):
